@@ -56,6 +56,22 @@ func selectByFile(pkgs []*packages.Package, file string) *packages.Package {
 }
 
 func commonPrefix(paths []string) string {
+	prefix := commonBytesPrefix(paths)
+	// only keep whole path elements : the common bytes of /x/ab1 and /x/ab2 (or /x/a and /x/ab)
+	// stop in the middle of a directory name
+	for _, p := range paths {
+		if len(p) > len(prefix) && p[len(prefix)] != filepath.Separator {
+			if i := strings.LastIndexByte(prefix, filepath.Separator); i > 0 {
+				return prefix[:i]
+			} else if i == 0 {
+				return prefix[:1]
+			}
+		}
+	}
+	return prefix
+}
+
+func commonBytesPrefix(paths []string) string {
 	index := 0
 	first := paths[0]
 	for ; index < len(first); index++ {
